@@ -81,6 +81,59 @@ def file_lines(data):
     return [x.decode("utf-8", "surrogateescape").rstrip() for x in out]
 
 
+def overlapping_transfers(ctx, res):
+    """Two documents on their way at once (as two threads of the threading server have them): while transfer A is handing
+    its k-th block to the client, transfer B runs from start to finish; then A goes on.  The block is taken from A's writer
+    only after B is done, as a client socket that was not ready takes it.  Each client gets its own document's bytes."""
+    tree = pyg.Tree()
+    try:
+        rng = ctx.rng
+        docs = {"/a.bin": bytes(rng.randrange(256) for _ in range(10000)), "/b.bin": bytes(rng.randrange(256) for _ in range(13000)),
+                "/docs/t.txt": b"".join(b"line %d of the text\n" % i for i in range(700))}
+        for sel, data in docs.items():
+            tree.write(sel.lstrip("/"), data)
+        cfg = pyg.make_config(tree.root, **{"handlers.dir.DirHandler|cachetime": "0"})
+        pyg.reset_globals()
+        for pa, pb in (("gopher", "gopher"), ("http", "gopher"), ("gopherp", "http"), ("gemini", "spartan")):
+            for sa, sb in (("/a.bin", "/b.bin"), ("/b.bin", "/docs/t.txt")):
+                rqa, rqb = reqs.build(pa, sa), reqs.build(pb, sb)
+                alone_a = pyg.request(rqa, cfg, tls=reqs.TLS[pa], reset=False).out
+                alone_b = pyg.request(rqb, cfg, tls=reqs.TLS[pb], reset=False).out
+                for k in (1, 2, 3):
+                    state = {"n": 0, "b": None}
+
+                    class W:
+                        def __init__(self):
+                            self.parts = []
+
+                        def write(self, data):
+                            state["n"] += 1
+                            if state["n"] == k and state["b"] is None:
+                                state["b"] = pyg.request(rqb, cfg, tls=reqs.TLS[pb], reset=False)
+                            self.parts.append(bytes(data))
+                            return len(data)
+
+                        def flush(self):
+                            pass
+                    w = W()
+                    ra = pyg.request(rqa, cfg, tls=reqs.TLS[pa], wfile=w, reset=False)
+                    out_a = b"".join(w.parts)
+                    res.evaluations += 2
+                    if state["b"] is None:
+                        continue
+                    res.nontrivial.add(("overlap", pa, pb, sa, k))
+                    for who, got, want, rq in (("A (interrupted at block %d)" % k, out_a, alone_a, rqa), ("B (served in between)", state["b"].out, alone_b, rqb)):
+                        if got != want or ra.exc is not None:
+                            i_ = next((i for i, (x, y) in enumerate(zip(got or b"", want or b"")) if x != y), min(len(got or b""), len(want or b"")))
+                            res.violation("C04:overlapping-transfers:" + who[:1], "a document delivered while another transfer was under way is not the file's bytes",
+                                          {"A": rqa[:60], "B": rqb[:60], "who": who, "first_difference_at": i_},
+                                          observed=(got or b"")[max(0, i_ - 8):i_ + 40], required=(want or b"")[max(0, i_ - 8):i_ + 40],
+                                          replay={"overlap": True, "a": rqa.decode("latin-1"), "b": rqb.decode("latin-1"), "k": k, "pa": pa, "pb": pb})
+    finally:
+        tree.close()
+        pyg.reset_globals()
+
+
 def run(ctx):
     res = Result()
     res.rule = ("files of sizes around every multiple of the copy block (0,1,k*4096-1,k*4096,k*4096+1, 1 MiB in thorough) with "
@@ -361,11 +414,15 @@ def run(ctx):
     # end to end: Model/Serve.answer (request line -> whole response) vs the real server, byte for byte
     import sitecorr
     sitecorr.compare_answers(ctx, res, ctx.n(4, 40), "C04")
+    overlapping_transfers(ctx, res)
     res.degraded = list(pyg.degraded) + [d for d in res.degraded if d not in pyg.degraded]
     return res
 
 
 def replay(data):
+    if data["violation"]["replay"].get("overlap"):
+        print("overlapping transfers, forced as in harness/props/c04.py overlapping_transfers:", data["violation"]["replay"])
+        return 0
     rp = data["violation"]["replay"]
     tree = pyg.Tree()
     try:
